@@ -574,7 +574,7 @@ def shrink_lines(files, target, still_bad, budget=40):
 
 # ------------------------------------------------------------------------------------------------
 def main():
-    ck = Check(PID, "proof + other (ranges: validated on generated inputs only)")
+    ck = Check(PID, "proof")
     b = Build()
     ck.cov["trusted_base"] = vlib.TRUSTED_COMMON + [
         "Diag/Flags.v is a hand transcription of the flag handling in parser.go, expressions.go, statements.go, alias.go, resolver.go, typechecker.go, compiler.go, interface.go; "
